@@ -1107,6 +1107,7 @@ namespace BitSerializer::MsgPack::Detail
 				return true;
 			}
 			HandleMismatchedTypesPolicy(mBinaryStreamReader, ByteCodeTable[static_cast<uint8_t>(*byteCode)].Type, mSerializationOptions.mismatchedTypesPolicy);
+			return false;
 		}
 		throw ParsingException("No more values to read", 0, mBinaryStreamReader.GetPosition());
 	}
@@ -1406,6 +1407,8 @@ namespace BitSerializer::MsgPack::Detail
 				binarySize = sz32;
 				return true;
 			}
+			HandleMismatchedTypesPolicy(mBinaryStreamReader, ReadValueType(), mSerializationOptions.mismatchedTypesPolicy);
+			return false;
 		}
 		throw ParsingException("No more values to read", 0, mBinaryStreamReader.GetPosition());
 	}
